@@ -613,7 +613,12 @@ def parseTok (tok : String) : Tok :=
     else if name == "wrap" then .wrap
     else if name == "fill" then .fill ((parseHexU8 arg).getD 0xa5)
     -- an explicit `Zeroize::zeroize()` on a plain / unlocked read-write container (the only states in which the harness
-    -- issues it) zeroes the `len` bytes and keeps the length: the same state change as `fill:00`
+    -- issues it) zeroes the `len` bytes and keeps the length: the same state change as `fill:00`.
+    -- VALID ONLY ON PLAIN / UNLOCKED READ-WRITE SLOTS: `opFill` also accepts a LOCKED read-write region, where the real
+    -- `Protected::zeroize` would additionally `munlock` the pages (and `fill` does not); the runner (`ops_prot.rs`)
+    -- answers `n/a` for `zeroize` on every other type state and the generators never issue it there, so the two
+    -- readings of the token agree on everything the harness does.  (No separate `Op.zeroize`: the theorems
+    -- of C14/C15/C19 speak about `Op.fill`; nothing is claimed about `zeroize` on a locked region.)
     else if name == "zeroize" then .fill 0
     else if name == "lock" then .lock
     else if name == "unlock" then .unlock
